@@ -3,3 +3,4 @@ pub uninterp spec fn ipv4_of(v: u32) -> Ipv4Addr;
 pub assume_specification [<std::net::Ipv4Addr as From<u32>>::from] (v: u32) -> (r: std::net::Ipv4Addr) ensures r == ipv4_of(v);
 pub uninterp spec fn ipv6_of(a: u16, b: u16, c: u16, d: u16, e: u16, f: u16, g: u16, h: u16) -> Ipv6Addr;
 pub assume_specification [std::net::Ipv6Addr::new] (a: u16, b: u16, c: u16, d: u16, e: u16, f: u16, g: u16, h: u16) -> (r: std::net::Ipv6Addr) ensures r == ipv6_of(a, b, c, d, e, f, g, h);
+
